@@ -1,8 +1,11 @@
 (* C17 — nsqadmin state-changing actions require an admin identity.  Property theorems only.
    [admin_routes], [ci_actions], [admin_auth_shape] are regenerated from nsqadmin/http.go and
-   internal/clusterinfo/data.go on every run (gen/AdminRoutes.v). *)
+   internal/clusterinfo/data.go on every run (gen/AdminRoutes.v); [admin_opt_fields] (struct
+   tags of nsqadmin.Options), [admin_flags] (nsqadminFlagSet), the NewOptions defaults, the order
+   of program.Start and [admin_doc_keys] (contrib/nsqadmin.cfg.example) likewise
+   (gen/AdminOptTable.v). *)
 From Coq Require Import String List NArith Bool.
-From NSQV Require Import model.Judge model.Names gen.AdminRoutes model.Admin proofs.AdminProofs.
+From NSQV Require Import model.Judge model.Names gen.AdminRoutes gen.AdminOptTable model.Admin model.AdminCfg proofs.AdminProofs proofs.AdminCfgProofs.
 Import ListNotations.
 Open Scope list_scope.
 Open Scope N_scope.
@@ -255,6 +258,97 @@ Theorem C17_config_served_iff : forall cfg w rq,
 Proof. exact config_served_iff. Qed.
 Print Assumptions C17_config_served_iff.
 
+(* ------------------------------------------------------------------ configuration paths *)
+
+(* The property is quantified over the CONFIGURATION: an admin list, a header name, a CIDR and
+   the upstream addresses reach the running nsqadmin from the command line, from the --config
+   file, or from both.  The regenerated tables bind each of the five options to its documented
+   flag and its documented config-file key (with the kind of flag and the default that make
+   "not given" mean the documented default), and every `flag` tag names a flag that exists
+   (options.Resolve panics otherwise). *)
+Theorem C17_options_table : bindings_ok admin_tables = true.
+Proof. exact bindings_current. Qed.
+Print Assumptions C17_options_table.
+
+(* every key of contrib/nsqadmin.cfg.example is the config key of exactly one resolvable field of
+   the documented shape, every resolvable field is documented (dev_static_dir excepted), no two
+   fields share a flag or a key *)
+Theorem C17_options_documented : docs_ok admin_tables admin_doc_keys = true.
+Proof. exact docs_current. Qed.
+Print Assumptions C17_options_documented.
+
+(* program.Start: defaults, flags, decoded file, Validate (log_level only), Resolve, New *)
+Theorem C17_start_order : admin_start_shape = start_shape_expected /\ admin_validated_keys = validated_expected.
+Proof. exact start_shape_current. Qed.
+Print Assumptions C17_start_order.
+
+(* for EVERY launch (any arguments, any file): options.Resolve over the regenerated tables yields
+   exactly the documented configuration: command line over config file over default, under the
+   documented names *)
+Theorem C17_config_paths : forall l, resolve_launch admin_tables l = Some (spec_config l).
+Proof. exact resolve_current. Qed.
+Print Assumptions C17_config_paths.
+
+Theorem C17_config_paths_any_table : forall T, bindings_ok T = true ->
+  forall l, resolve_launch T l = Some (spec_config l).
+Proof. exact resolve_is_documented. Qed.
+Print Assumptions C17_config_paths_any_table.
+
+Theorem C17_precedence_list : forall flag key l,
+  (arg_values flag l <> [] -> spec_list flag key l = arg_values flag l) /\
+  (arg_values flag l = [] -> forall v, file_value key l = Some v -> spec_list flag key l = coerce_list v) /\
+  (arg_values flag l = [] -> file_value key l = None -> spec_list flag key l = []).
+Proof. exact spec_list_paths. Qed.
+Print Assumptions C17_precedence_list.
+
+Theorem C17_precedence_str : forall flag key dflt l,
+  (arg_values flag l <> [] -> spec_str flag key dflt l = last (arg_values flag l) []) /\
+  (arg_values flag l = [] -> forall v, file_value key l = Some v -> spec_str flag key dflt l = coerce_str v) /\
+  (arg_values flag l = [] -> file_value key l = None -> spec_str flag key dflt l = dflt).
+Proof. exact spec_str_paths. Qed.
+Print Assumptions C17_precedence_str.
+
+(* nsqadmin comes up exactly for a valid documented configuration *)
+Theorem C17_launch_starts_iff : forall cp l,
+  launch_cfg admin_tables cp l <> None <->
+  ((rc_lookupds (spec_config l) = [] /\ rc_nsqds (spec_config l) <> []) \/
+   (rc_lookupds (spec_config l) <> [] /\ rc_nsqds (spec_config l) = [])) /\
+  cidr_of cp (rc_cidr (spec_config l)) <> None.
+Proof. exact launch_starts_iff. Qed.
+Print Assumptions C17_launch_starts_iff.
+
+(* C17_guarded over the configuration paths: the admin list and the header name as the operator
+   wrote them, with the documented flag or the documented key *)
+Theorem C17_guarded_any_path : forall cp l cfg rc w p r rq,
+  launch_cfg admin_tables cp l = Some (cfg, rc) ->
+  find_route admin_routes (rq_method rq) p = RHandler r ->
+  existsb is_amut (ar_events r) = true ->
+  spec_list "admin-user" "admin_users" l <> [] ->
+  ~ In (header_get (rq_headers rq) (spec_str "acl-http-header" "acl_http_header" default_acl_header l))
+       (spec_list "admin-user" "admin_users" l) ->
+  handle cfg w admin_routes p rq = mkOut 403 false [] false.
+Proof. exact launch_guarded. Qed.
+Print Assumptions C17_guarded_any_path.
+
+Theorem C17_allowed_any_path : forall cp l cfg rc w p rq,
+  launch_cfg admin_tables cp l = Some (cfg, rc) ->
+  spec_list "admin-user" "admin_users" l = [] \/
+  In (header_get (rq_headers rq) (spec_str "acl-http-header" "acl_http_header" default_acl_header l))
+     (spec_list "admin-user" "admin_users" l) ->
+  handle cfg w admin_routes p rq = handle (open_cfg cfg) w admin_routes p rq.
+Proof. exact launch_allowed. Qed.
+Print Assumptions C17_allowed_any_path.
+
+Theorem C17_config_guarded_any_path : forall cp l cfg rc w p r rq c ip,
+  launch_cfg admin_tables cp l = Some (cfg, rc) ->
+  find_route admin_routes (rq_method rq) p = RHandler r ->
+  existsb (aev_eqb ASwap) (ar_events r) = true ->
+  cidr_of cp (spec_str "allow-config-from-cidr" "allow_config_from_cidr" default_config_cidr l) = Some (Some c) ->
+  rq_remote rq = Some ip -> cidr_contains c ip = false ->
+  handle cfg w admin_routes p rq = mkOut 403 false [] false.
+Proof. exact launch_config_guarded. Qed.
+Print Assumptions C17_config_guarded_any_path.
+
 (* ------------------------------------------------------------------ non-vacuity *)
 
 (* the state-changing routes of the current source tree *)
@@ -302,4 +396,51 @@ Proof. vm_compute. reflexivity. Qed.
 Example C17_witness_cidr :
   map (cidr_contains (C4 2130706433 8)) [IP4 2147418121; IP4 2147483649; IP6 281472812449793; IP6 1]
   = [true; false; true; false].
+Proof. vm_compute. reflexivity. Qed.
+
+(* the admin list on each path: file only (array and comma-separated string), command line only
+   (repeated flag), both (the command line wins); the other options from the file *)
+Definition ex_bob : bytes := [98;111;98].
+Definition ex_l1 : bytes := [108;49].
+Definition ex_cidr30 : bytes := [49;50;55;46;48;46;48;46;48;47;51;48].   (* 127.0.0.0/30 *)
+Definition ex_remote_id : bytes := [88;45;82;101;109;111;116;101;45;73;100].   (* X-Remote-Id *)
+Definition ex_file (admins : cfgval) : list (string * cfgval) :=
+  [("admin_users"%string, admins); ("acl_http_header"%string, CVStr ex_remote_id);
+   ("allow_config_from_cidr"%string, CVStr ex_cidr30); ("nsqlookupd_http_addresses"%string, CVList [ex_l1])].
+
+Example C17_witness_paths :
+  map (fun l => option_map rc_admins (resolve_launch admin_tables l))
+      [mkLaunch [] (ex_file (CVList [ex_alice; ex_bob]));
+       mkLaunch [] (ex_file (CVStr [97;108;105;99;101;44;98;111;98]));
+       mkLaunch [("admin-user"%string, ex_alice); ("lookupd-http-address"%string, ex_l1); ("admin-user"%string, ex_bob)] [];
+       mkLaunch [("admin-user"%string, ex_bob)] (ex_file (CVList [ex_alice]));
+       mkLaunch [("lookupd-http-address"%string, ex_l1)] []]
+  = [Some [ex_alice; ex_bob]; Some [ex_alice; ex_bob]; Some [ex_alice; ex_bob]; Some [ex_bob]; Some []].
+Proof. vm_compute. reflexivity. Qed.
+
+(* a launch whose whole configuration is in the file comes up with it, and the non-admin's DELETE
+   is refused there (hypotheses of C17_guarded_any_path met); 127.0.0.9 is outside 127.0.0.0/30 *)
+Example C17_witness_file_launch :
+  let l := mkLaunch [] (ex_file (CVList [ex_alice])) in
+  let cp := [(ex_cidr30, Some (C4 2130706432 30))] in
+  match launch_cfg admin_tables cp l with
+  | Some (cfg, rc) =>
+      (cf_admins cfg, cf_header cfg, cf_cidr cfg, rc_lookupds rc, rc_nsqds rc) =
+      ([ex_alice], ex_remote_id, Some (C4 2130706432 30), [ex_l1], []) /\
+      handle cfg ex_world admin_routes "/api/topics/:topic" (ex_req [(ex_remote_id, ex_bob)]) = mkOut 403 false [] false /\
+      o_status (handle cfg ex_world admin_routes "/api/topics/:topic" (ex_req [(ex_remote_id, ex_alice)])) = 200 /\
+      o_status (handle cfg ex_world admin_routes "/config/:opt"
+                  (mkReq "GET" [] (Some (IP4 2130706441)) [] [] [] BodyBad OptLogLevel PutEmpty)) = 403
+  | None => False
+  end.
+Proof. vm_compute. repeat split; reflexivity. Qed.
+
+(* no address list, both address lists, an unparsable CIDR: no start *)
+Example C17_witness_no_start :
+  map (fun l => match launch_cfg admin_tables [([120], None)] l with Some _ => true | None => false end)
+      [mkLaunch [] [];
+       mkLaunch [("lookupd-http-address"%string, ex_l1); ("nsqd-http-address"%string, ex_l1)] [];
+       mkLaunch [("lookupd-http-address"%string, ex_l1)] [("allow_config_from_cidr"%string, CVStr [120])];
+       mkLaunch [("lookupd-http-address"%string, ex_l1)] [("allow_config_from_cidr"%string, CVStr [])]]
+  = [false; false; false; true].
 Proof. vm_compute. reflexivity. Qed.
